@@ -242,6 +242,7 @@ class SymEval:
         self._inline_stack = []  # [(FuncInfo, returns list)]
         self._lid_prefix = ""
         self._loops: list = []
+        self._jump_targets: list = []  # what break / continue refer to: the innermost loop, or the current iteration of a loop being unrolled
         self._trys: list = []
         self._handler = None
         self._stmt = None
@@ -422,19 +423,13 @@ class SymEval:
             return self.loop(s, st)
         if isinstance(s, ast.Try):
             return self.try_(s, st)
-        if isinstance(s, ast.Continue):
-            if self._loops:
+        if isinstance(s, (ast.Continue, ast.Break)):
+            kind = "continue" if isinstance(s, ast.Continue) else "break"
+            if self._jump_targets:
                 snap = st.copy()
                 snap.seq = len(self.effects)
-                self._loop_ends.setdefault(self._loops[-1], []).append(("continue", snap))
-            st.dead = "continue"
-            return st
-        if isinstance(s, ast.Break):
-            if self._loops:
-                snap = st.copy()
-                snap.seq = len(self.effects)
-                self._loop_ends.setdefault(self._loops[-1], []).append(("break", snap))
-            st.dead = "break"
+                self._loop_ends.setdefault(self._jump_targets[-1], []).append((kind, snap))
+            st.dead = kind
             return st
         if isinstance(s, (ast.Pass, ast.Global, ast.Nonlocal, ast.Import, ast.ImportFrom)):
             return st
@@ -618,6 +613,31 @@ class SymEval:
                     if st.dead:
                         return st
                 return self.block(s.orelse, st) if s.orelse else st
+            if seq is not None and do_unroll and len(seq) <= 8 and _has_break_continue(s.body):
+                # unrolled with its jumps: a `continue` joins the entry of the next element, a `break` joins the exit of the loop (past the else clause)
+                info["unrolled"] = len(seq)
+                base_dnf, exits, cur = st.dnf, [], st
+                for k, v in enumerate(seq):
+                    if cur.dead:
+                        break
+                    sub = f"{lid}#{k}"
+                    entry_dnf = cur.dnf
+                    self._jump_targets.append(sub)
+                    self.assign(s.target, self.lift(v), cur, s)
+                    cur = self.block(s.body, cur)
+                    self._jump_targets.pop()
+                    for j, (kind, e) in enumerate(self._loop_ends.pop(sub, [])):
+                        if kind == "continue":
+                            cur = self.merge(("continued", sub, j), State(e.env, e.dnf, None), cur, entry_dnf)
+                        else:
+                            exits.append((sub, j, e))
+                if cur.dead in ("break", "continue"):
+                    cur = State(cur.env, cur.dnf, "left" if exits else None)
+                if s.orelse and not cur.dead:
+                    cur = self.block(s.orelse, cur)
+                for sub, j, e in exits:
+                    cur = self.merge(("left-by-break", sub, j), State(e.env, e.dnf, None), cur, base_dnf)
+                return cur
         if isinstance(s, ast.While) and self.unroll and not s.orelse and not _has_break_continue(s.body):
             # constant-trip-count while loop: unroll as long as the test folds to a constant
             limit = self.unroll if isinstance(self.unroll, int) and not isinstance(self.unroll, bool) else 64
@@ -663,8 +683,14 @@ class SymEval:
                 if k.startswith("self.") and k[5:] not in self.frozen_fields and k != "self.*":
                     st.env[k] = ("loop", lid, k)
             st.env["self.*"] = ("in", lid)
+        fl = getattr(s, "_sa_flag_loop", None)
+        if fl is not None:
+            # a flag loop rewritten to its break form (threadflags): the flag has its continue value at every entry to the head
+            st.env[fl[0]] = const(fl[1])
+            info["flag"] = fl
         info["pre"] = pre.env
         self._loops.append(lid)
+        self._jump_targets.append(lid)
         self._tail_stack.append((lid,) + _tail_positions(s.body))
         self._head_mark[lid] = (len(self.effects), getattr(s, "_sa_from_while", s), len(self._inline_stack), len(self._open_stmts))
         self._iter_dirty[lid] = False
@@ -691,6 +717,7 @@ class SymEval:
         info["ends"] = self._loop_ends.get(lid, [])
         info["tail_ends"] = self._tail_ends.get(lid, [])
         self._loops.pop()
+        self._jump_targets.pop()
         self._tail_stack.pop()
         out = State(dict(st.env), pre.dnf, None)
         for n in assigned:
@@ -1214,6 +1241,10 @@ class SymEval:
                         return r
                 if x[0] == "ite" and is_const(y) and _const_leaves(x):
                     return self._bool_tree(x, lambda k: (_CMPFN[sym](k, y[1]) if left else _CMPFN[sym](y[1], k)))
+                if x[0] == "ite" and is_const(y) and _some_const_leaf(x):
+                    # a default chosen on an earlier test (`n = 0` in the handler, `n = int(s)` otherwise): the comparison is decided on the constant
+                    # alternatives and stays a comparison on the others
+                    return self._bool_tree(x, lambda k: (_CMPFN[sym](k, y[1]) if left else _CMPFN[sym](y[1], k)), other=lambda t: ("cmp", sym, t, y) if left else ("cmp", sym, y, t))
         if sym in ("in", "not in") and is_const(b) and isinstance(b[1], (tuple, list, set, frozenset)) and len(b[1]) == 1:
             return self.cmp("==" if sym == "in" else "!=", a, self.lift(next(iter(b[1]))))  # membership in a one-element constant
         if sym in ("in", "not in") and is_const(a) and b[0] == "gval":
@@ -1242,13 +1273,15 @@ class SymEval:
             return parts[0][1]  # a single string item is itself
         return _mk_fstr(parts) if parts else const("")
 
-    def _bool_tree(self, t, pred):
+    def _bool_tree(self, t, pred, other=None):
         if is_const(t):
             try:
                 return const(bool(pred(t[1])))
             except Exception:
-                return const(False)
-        c, A, B = t[1], self._bool_tree(t[2], pred), self._bool_tree(t[3], pred)
+                return const(False) if other is None else other(t)
+        if t[0] != "ite":
+            return other(t)
+        c, A, B = t[1], self._bool_tree(t[2], pred, other), self._bool_tree(t[3], pred, other)
         if A == B:
             return A
         nc = self.negate(c)
@@ -1353,6 +1386,9 @@ class SymEval:
         for k in e.keywords:
             kwargs.append((k.arg, self.expr(k.value, st)))
         args, kwargs = tuple(args), tuple(kwargs)
+        if f[0] == "attr" and f[1][0] == "builtin" and f[1][1] in ("int", "bytes", "str") and args and f[2] in ("to_bytes", "bit_length", "hex", "decode", "strip", "split", "rsplit", "startswith", "endswith"):
+            # the unbound-method form T.m(x, ...) of x.m(...) for a value of the builtin type T
+            recv, f, args = args[0], ("attr", args[0], f[2]), args[1:]
         # ---- pure folding on constants
         if f[0] == "builtin" and f[1] in PURE_BUILTINS and PURE_BUILTINS[f[1]] and not kwargs and all(is_const(a) for a in args):
             try:
@@ -1520,6 +1556,13 @@ def _const_leaves(t, depth=0) -> bool:
     if is_const(t):
         return True
     return t[0] == "ite" and depth < 12 and _const_leaves(t[2], depth + 1) and _const_leaves(t[3], depth + 1)
+
+
+def _some_const_leaf(t, depth=0) -> bool:
+    """An ite tree of at most 4 levels with a constant among its alternatives."""
+    if is_const(t):
+        return True
+    return t[0] == "ite" and depth < 4 and (_some_const_leaf(t[2], depth + 1) or _some_const_leaf(t[3], depth + 1))
 
 
 def _ite_under(t, guards):
